@@ -250,7 +250,10 @@ func udpRun(c *core.Ctx, k udpCase, prop string) {
 		if lo > nr || nr > q || q > n {
 			return fmt.Sprintf("history of %s: the model ends with lo %d, nextRecv %d, qLo %d, |segs| %d", name, lo, nr, q, n)
 		}
-		if !o.tr.Stalled && len(o.fails) == 0 && nr != n {
+		// A direction whose only segment is the payload-less open-session response (n == 1) may end with that
+		// segment lost and never needed: an upload-only transfer completes without the client ever reading it
+		// (false alarm of the thorough tier on the unchanged tree before this case was excluded).
+		if !o.tr.Stalled && len(o.fails) == 0 && nr != n && !(n == 1 && nr == 0) {
 			return fmt.Sprintf("history of %s: every reader received everything, yet the model has released only %d of %d segments", name, nr, n)
 		}
 		return ""
